@@ -57,6 +57,16 @@ def find_witness(pid, obligation):
             if w.get("kind") == "ds_ops":
                 w["fn"] = fn.split("::")[1]
                 return w
+        if fn == "get_interpreter_for":
+            ok, err = build_witness()
+            if ok:
+                cands = [(c, True) for c in ["de", "en", "es", "fr", "it", "nl", "pt"]] + [(c, False) for c in ["", "e", "eng", "EN", "xx", "12", "p t"]]
+                for (c, some) in cands:
+                    w = {"kind": "call", "fn": "lookup", "text": c, "expect": {"is_some": some}}
+                    p = subprocess.run([wbin("t2n_call"), json.dumps(w)], capture_output=True, text=True, timeout=20)
+                    if p.returncode == 1:
+                        w["what"] = p.stdout.strip().replace("\n", " | ")
+                        return w
         if pid in ("C11", "C17"):
             ok, err = build_witness()
             if ok:
